@@ -27,7 +27,8 @@ the change and fails with it), `meta.json` (property, what the change needs in o
 confirm it, what the checks reported) and the author's own `AGENT_README.md`.
 
 The changes were written by independent sub-agents that were given only the text of one property, general rules and a
-scratch git worktree (nothing from /verif). Each was kept only after `scripts/confirm_seeded.sh` confirmed, in that
+scratch git worktree (nothing from /verif). In round 7 (ids listed with a 'round 7' note in meta.json) they were also told, in
+general terms, what the checks already do and were asked to find a slip the checks would still miss. Each was kept only after `scripts/confirm_seeded.sh` confirmed, in that
 worktree: the crate compiles, the suite's result equals the baseline (all 3249 baseline tests still pass), the
 demonstration fails with the change and passes without it. `scripts/with_repo.sh` then ran the registered quick
 check(s) against the changed worktree (never against /repo). To repeat everything: `scripts/sensitivity.sh seeded`.
